@@ -112,7 +112,7 @@ func init() {
 					s.P["scope"] = "openid " + s.P["scope"]
 				}
 				if t.Chance(35) {
-					s.P["mode"] = t.Pick([]string{"query", "fragment", "form_post"})
+					s.P["mode"] = t.Pick([]string{"query", "fragment", "form_post", SimResponseMode})
 				}
 				switch t.Intn(8) { // errors raised AFTER redirect validation
 				case 0:
@@ -138,7 +138,7 @@ func init() {
 					}
 				}
 				if t.Chance(30) {
-					s.P["mode"] = t.Pick([]string{"query", "fragment", "form_post"})
+					s.P["mode"] = t.Pick([]string{"query", "fragment", "form_post", SimResponseMode})
 				}
 				steps = append(steps, s)
 			case 2:
@@ -146,7 +146,7 @@ func init() {
 			case 3:
 				steps = append(steps, Step{Op: "redeem", C: -1, G: t.Intn(10)})
 			case 4:
-				steps = append(steps, Step{Op: "hostile", C: c, V: "authorize", D: int64(t.Intn(len(hostile))), P: map[string]string{"what": t.Pick([]string{"redirect", "state", "scope", "rt", "mode"}), "mode": t.Pick([]string{"", "form_post", "fragment"})}})
+				steps = append(steps, Step{Op: "hostile", C: c, V: "authorize", D: int64(t.Intn(len(hostile))), P: map[string]string{"what": t.Pick([]string{"redirect", "state", "scope", "rt", "mode"}), "mode": t.Pick([]string{"", "form_post", "fragment", SimResponseMode})}})
 			}
 		}
 		return &Plan{Profile: "c11", Prop: "C11", K: k, Steps: steps}
@@ -354,6 +354,9 @@ func init() {
 	reg(&Profile{Name: "c13", Prop: "C13", Gen: func(t *Tape) *Plan {
 		k := Knobs{Clients: c13Clients(t), Users: map[string]string{"peter": "peters-password"}, Store: "plain"}
 		k.JWTAccess = t.Chance(30)
+		if t.Chance(30) {
+			enableCustomMode(t, &k)
+		}
 		if t.Chance(40) {
 			k.MinParamEntropy = t.Range(4, 16)
 		}
@@ -386,7 +389,7 @@ func init() {
 				s.P["nonce"] = str(minE + 5)
 			}
 			if t.Chance(40) {
-				s.P["mode"] = t.Pick([]string{"query", "fragment", "form_post", "bogus_mode"})
+				s.P["mode"] = t.Pick([]string{"query", "fragment", "form_post", "bogus_mode", SimResponseMode})
 			}
 			if t.Chance(15) {
 				s.P["redirect"] = "omit"
@@ -491,7 +494,7 @@ func init() {
 				// the same OpenID Connect request, pushed first: nonce, response type and scope travel through the PAR session
 				ps := st("par_push", t.Intn(nc), 0, "rt", t.Pick(flows), "nonce", fmt.Sprintf("nonce-%d-abcdefghijkl", len(steps)), "scope", pickScopes(t, 85, 60))
 				if t.Chance(25) {
-					ps.P["mode"] = t.Pick([]string{"fragment", "form_post"})
+					ps.P["mode"] = t.Pick([]string{"fragment", "form_post", SimResponseMode})
 				}
 				use := Step{Op: "authz_par", C: -1, P: map[string]string{"latest": "1", "sub": t.Pick([]string{"user-A", "user-B"})}}
 				if t.Chance(20) {
@@ -542,7 +545,7 @@ func init() {
 					s.P["no_auth_time"] = "1"
 				}
 				if t.Chance(25) {
-					s.P["mode"] = t.Pick([]string{"fragment", "form_post"})
+					s.P["mode"] = t.Pick([]string{"fragment", "form_post", SimResponseMode})
 				}
 				steps = append(steps, s)
 			case 1:
